@@ -1,0 +1,18 @@
+//go:build !verif
+
+package pubsub
+
+import "github.com/libp2p/go-libp2p/core/peer"
+
+// Verification hooks (see verif_hooks_on.go). With the "verif" build tag off they are empty
+// and are inlined away.
+
+const (
+	verifPopBeforeWait = iota
+	verifPopCancelBroadcastDone
+	verifSeqnoBeforeCommit
+)
+
+func verifYield(int) {}
+
+func verifObserveSendRPC(peer.ID, *RPC) {}
